@@ -27,7 +27,6 @@ inductive Obs where
 
 structure S where
   open_  : List (Nat × Nat) := []     -- (descriptor, owner) for every descriptor created by the script and not yet closed by its owner
-  closed : List Nat := []             -- objects on which Close has been called
   deriving Repr, DecidableEq, Inhabited
 
 def insertSorted (a : Nat) : List Nat → List Nat
@@ -45,7 +44,7 @@ def step (s : S) : Op → Obs → Except String S
       -- the kernel never hands out a number that is open: an earlier close must have hit a descriptor it did not own
       .error "foreign-close-detected-at-create"
     else
-      let s' := { s with open_ := s.open_ ++ fds.map (·, k) }
+      let s' : S := { open_ := fds.map (·, k) ++ s.open_ }
       if alive == fdsOf s' then .ok s'
       else if (fdsOf s).any (fun fd => !alive.contains fd) then .error "create-closed-a-descriptor"
       else .error "create-descriptor-not-open"
@@ -58,8 +57,15 @@ def step (s : S) : Op → Obs → Except String S
     else if mine.any (fun e => alive.contains e.1) then
       .error "close-not-exact"
     else if alive == sortNat (others.map (·.1)) then
-      .ok { open_ := others, closed := if s.closed.contains k then s.closed else k :: s.closed }
+      .ok { open_ := others }
     else .error "alive-set-unexpected"
   | _, _ => .error "malformed"
+
+/-- Replay a list of operations with their observations. -/
+def accepts (s : S) : List (Op × Obs) → Bool
+  | [] => true
+  | (op, ob) :: r => match step s op ob with
+    | .ok s' => accepts s' r
+    | .error _ => false
 
 end Sonic.Spec.Resources
